@@ -274,6 +274,27 @@ func parseVerify(v []byte) (*parsedVerify, error) {
 	return nil, errors.New("script does not end in CHECKSIG/CHECKMULTISIG")
 }
 
+// decodeKey is keypair.DeserializePublicKey memoised by input bytes (a pure function; decompressing a P-224
+// point costs ~10 ms in ontology-crypto because its square root draws random primes, and zoo keys recur).
+var keyCache = map[string]struct {
+	k   keypair.PublicKey
+	err error
+}{}
+
+func decodeKey(b []byte) (keypair.PublicKey, error) {
+	if c, ok := keyCache[string(b)]; ok {
+		return c.k, c.err
+	}
+	k, err := keypair.DeserializePublicKey(b)
+	if len(keyCache) < 1<<16 {
+		keyCache[string(b)] = struct {
+			k   keypair.PublicKey
+			err error
+		}{k, err}
+	}
+	return k, err
+}
+
 // ---------------------------------------------------------------------------------------------
 // accounts
 
@@ -388,7 +409,7 @@ func indepVerify(raw []byte) indepResult {
 		}
 		canon := map[string]bool{}
 		for _, kb := range pv.Keys {
-			k, err := keypair.DeserializePublicKey(kb)
+			k, err := decodeKey(kb)
 			if err != nil {
 				res.Why = fmt.Sprintf("set %d: undecodable key %x", i, kb)
 				return res
@@ -465,7 +486,7 @@ func hasDuplicateKeyScript(raw []byte) bool {
 		}
 		seen := map[string]bool{}
 		for _, kb := range pv.Keys {
-			k, err := keypair.DeserializePublicKey(kb)
+			k, err := decodeKey(kb)
 			if err != nil {
 				continue
 			}
